@@ -260,3 +260,18 @@ func (k *FakeKDC) Close() {
 	}
 	k.mu.Unlock()
 }
+
+// ComeBack turns a KDC whose TCP listener was closed ("none") into one that replies and closes:
+// the service was down and is up again on the same address.
+func (k *FakeKDC) ComeBack() error {
+	l, err := net.Listen("tcp", k.Addr)
+	if err != nil {
+		return err
+	}
+	k.mu.Lock()
+	k.tcp = l
+	k.Beh.TCP = "reply-close"
+	k.mu.Unlock()
+	go k.serveTCP()
+	return nil
+}
